@@ -56,6 +56,14 @@ var c06ExprFaults = []faultKind{
 	{"type-mismatch-bitand", "(1 & 1.5)"},
 	{"zero-divisor-div", "(1 / 0)"},
 	{"zero-divisor-mod", "(1 % 0)"},
+	{"zero-divisor-string-zero", "(1 / (\"\" + 0))"},
+	{"zero-divisor-string-zero-mod", "(7 % (\"0\" + \"\"))"},
+	{"zero-divisor-bangla-string-zero", "(5 / (\"\" + \"\u09e6\"))"},
+	{"zero-divisor-string-zero-fraction", "(2 / (\"0.0\" + \"\"))"},
+	{"zero-divisor-int", "((1 << 4) / (12 & 3))"},
+	{"zero-divisor-int-mod", "((1 << 4) % (12 & 3))"},
+	{"negative-shift-right", "(8 >> (0 - 2))"},
+	{"negative-shift-left-int", "((1 & 1) << (~0))"},
 	{"bad-index-high", "[1, 2][5]"},
 	{"bad-index-negative", "[1, 2][-1]"},
 	{"bad-index-fraction", "[1, 2][0.5]"},
@@ -761,6 +769,7 @@ func (b *skBuilder) after(s Src, depth int, inFunc bool) []*skNode {
 }
 
 type c06Plan struct {
+	lead  int // blank / comment lines before the first statement of the file
 	chain []string
 	fault skFault
 	decoy bool
@@ -836,7 +845,18 @@ func c06Build(plan c06Plan, s Src, depth int) (prog []*skNode) {
 }
 
 func c06Render(prog []*skNode, twin bool) (text string, faultLine int, strip []string) {
+	return c06RenderLead(prog, twin, 0)
+}
+
+func c06RenderLead(prog []*skNode, twin bool, lead int) (text string, faultLine int, strip []string) {
 	e := &skEmit{twin: twin}
+	for i := 0; i < lead; i++ {
+		if i%3 == 2 {
+			e.add(0, "   ")
+		} else {
+			e.add(0, "")
+		}
+	}
 	for _, l := range c06Prelude() {
 		e.add(0, l)
 	}
@@ -894,10 +914,9 @@ func c06Sig(plan c06Plan) string {
 
 func c06Case(plan c06Plan, s Src, depth int, tag string) *Case {
 	prog := c06Build(plan, s, depth)
-	text, fl, strip := c06Render(prog, false)
-	twinText, _, _ := c06Render(prog, true)
-	// render again: emit assigns n.Line, the non-twin lines are the ones the oracle needs
-	text, fl, strip = c06Render(prog, false)
+	twinText, _, _ := c06RenderLead(prog, true, plan.lead)
+	// rendered last: emit assigns n.Line, the non-twin lines are the ones the oracle needs
+	text, fl, strip := c06RenderLead(prog, false, plan.lead)
 	want, faulted, _, _ := c06Expected(prog, false, 0)
 	twinWant, _, twinInputs, _ := c06Expected(prog, true, 0)
 	if !faulted {
@@ -945,6 +964,9 @@ func c06Systematic(tier string) []*Case {
 				plan := c06Plan{fault: skFault{Kind: fk.name, Expr: fk.expr, Ctx: ctx, Probe: "input"}}
 				if enc != "" {
 					plan.chain = []string{enc}
+				}
+				if len(out)%7 == 3 {
+					plan.lead = 1 + len(out)%4
 				}
 				out = append(out, c06Case(plan, zeroSrc{}, 0, "table:ctx"))
 			}
@@ -1019,15 +1041,18 @@ func c06Systematic(tier string) []*Case {
 	cleanProgs["break-continue"] = fmt.Sprintf("%s (%s i = 0; i < 6; i = i + 1) { %s (i == 1) { %s; } %s (i == 4) { %s; } %s i; }\n%s n = 0;\n%s (n < 5) { n = n + 1; %s (n == 2) { %s; } %s n; }\n", KwFor, KwVar, KwIf, KwContinue, KwIf, KwBreak, KwPrint, KwVar, KwWhile, KwIf, KwContinue, KwPrint)
 	cleanProgs["array-loop-with-len"] = fmt.Sprintf("%s a = [10, 20, 30];\n%s (%s i = 0; i < %s(a); i = i + 1) { %s a[i]; }\n%s %s(a) + 1;\n%s a[%s(a) - 1];\n", KwVar, KwFor, KwVar, FnLen, KwPrint, KwPrint, FnLen, KwPrint, FnLen)
 	cleanProgs["builtin-results-as-numbers"] = fmt.Sprintf("%s %s([1, 2]) * 2 + %s(4) - %s(2.4) + %s(-3) + %s(2, 3) + %s(1, 9) - %s(4, 2);\n%s (%s([1]) == 1) { %s \"eq\"; }\n", KwPrint, FnLen, FnSqrt, FnRound, FnAbs, FnPow, FnMax, FnMin, KwIf, FnLen, KwPrint)
+	cleanProgs["60000-returning-calls"] = fmt.Sprintf("%s inc(n) { %s n + 1; }\n%s c = 0;\n%s (%s i = 0; i < 60000; i = i + 1) { c = inc(c); }\n%s c;\n", KwFun, KwReturn, KwVar, KwFor, KwVar, KwPrint)
+	cleanProgs["fib-24"] = fmt.Sprintf("%s fib(n) { %s (n < 2) { %s n; } %s fib(n - 1) + fib(n - 2); }\n%s fib(24);\n", KwFun, KwIf, KwReturn, KwReturn, KwPrint)
+	cleanProgs["leading-blank-lines"] = fmt.Sprintf("\n\n   \n%s \"ok\";\n", KwPrint)
 	cleanProgs["long-while"] = fmt.Sprintf("%s n = 0;\n%s (n < 5000) { n = n + 1; }\n%s n;\n", KwVar, KwWhile, KwPrint)
 	for _, name := range sortedStrKeys(cleanProgs) {
 		prog := cleanProgs[name]
 		want := map[string]string{"dead-fault": "ok\n", "short-circuit": "true\nfalse\n", "zero-trip-loops": "ok\n", "many-returning-calls": "2500\n", "fib-16": "987\n",
 			"deep-recursion-600": "0\n", "many-void-calls": "ok\n", "many-objects": "ok\n", "long-while": "5000\n",
-			"array-loop-with-len": "10\n20\n30\n4\n30\n", "builtin-results-as-numbers": "22\neq\n", "return-in-while": "3\n", "return-in-for": "4\n", "return-in-nested-loops": "11\n", "break-continue": "0\n2\n3\n1\n3\n4\n5\n",
+			"60000-returning-calls": "60000\n", "fib-24": "46368\n", "leading-blank-lines": "ok\n", "array-loop-with-len": "10\n20\n30\n4\n30\n", "builtin-results-as-numbers": "22\neq\n", "return-in-while": "3\n", "return-in-for": "4\n", "return-in-nested-loops": "11\n", "break-continue": "0\n2\n3\n1\n3\n4\n5\n",
 			"param-shadows-builtin": "4\n", "varlist-in-loop": "1\n2\n3\n", "decl-in-while": "1\n2\n3\n", "shadowing": "3\n2\n1\n4\n"}[name]
 		ccfg := scriptCfg(prog, "")
-		ccfg.Budget = 3000000
+		ccfg.Budget = 30000000
 		cs := &Case{Prop: "C06", Kind: "clean", Sig: "clean:" + name, Program: prog, FaultKind: "none", Runs: []Run{{Role: "clean", Cfg: ccfg}}}
 		cs.ExpectStdout = ptrS(want)
 		cs.Aux = &Aux{C06: &C06Expect{}}
@@ -1055,6 +1080,9 @@ func c06Random(s Src, tier string) *Case {
 	plan.fault = c06DrawFault(s, plan.chain)
 	plan.decoy = Chance(s, "decoy", 1, 5)
 	plan.second = Chance(s, "second", 1, 5)
+	if Chance(s, "lead", 1, 4) {
+		plan.lead = s.Int("nlead", 1, 5)
+	}
 	return c06Case(plan, s, 2, "rnd")
 }
 
